@@ -921,8 +921,11 @@ class Oracle:
 def safe_str(x):
     try:
         return str(x)
-    except Exception as e:  # noqa
-        return "<unprintable %s>" % type(e).__name__
+    except Exception:  # noqa
+        try:
+            return repr(x)
+        except Exception as e:  # noqa
+            return "<unprintable %s>" % type(e).__name__
 
 
 def describe(name, args, ths, r):
